@@ -973,6 +973,9 @@ def spec_op(c):
 def oracle(ctx, boost):
     rng = ctx.rng
     mult = 5 if boost else 1
+    # the counts a manager holds are STATE: sequences of transform calls on one manager, compared with fresh managers and direct counts
+    from sv.props import c09 as _c09
+    _c09.oracle_sequences(ctx, ctx.n(40, 600) * (3 if boost else 1), prop="C08")
     # 1. discretisation against its definition
     cases = []
     for _ in range(ctx.n(250, 5000) * mult):
